@@ -358,8 +358,8 @@ var corpus = []scripted{
 			h.sc.budgetIn = 0
 			h.sc.opts.lossRate = 1000 // every broker packet below is explicit
 			h.sc.inject = [][]byte{brokerPublish(2, false, 1, "in/old", []byte("o"))}
-			h.doRead() // connects, returns the message
-			h.doRead() // marker saved, PUBREC written; the connection ends before the PUBREL
+			h.doRead()                  // connects, returns the message
+			h.doRead()                  // marker saved, PUBREC written; the connection ends before the PUBREL
 			h.sc.sessionPresent = false // the broker comes back without its session
 			h.sc.inject = [][]byte{brokerPublish(2, false, 1, "in/new", []byte("n")), brokerPublish(0, false, 0, "in/last", []byte("z"))}
 			h.drain(4)
